@@ -181,6 +181,7 @@ def globals_digest() -> tuple[str, str]:
     ctx = decimal.getcontext()
     d = f'{ctx.prec}/{ctx.rounding}/{ctx.Emin}/{ctx.Emax}/{ctx.capitals}/{ctx.clamp}/' \
         f'{sorted(k.__name__ for k, v in ctx.traps.items() if v)}'
+    # (the sticky signal *flags* are not part of the compared state: any Decimal operation raises them)
     dd = hashlib.blake2b(d.encode(), digest_size=4).hexdigest()
     e = hashlib.blake2b(repr(sorted(os.environ.items())).encode(), digest_size=4).hexdigest()
     return e, dd
@@ -265,6 +266,10 @@ OTHER_EXPRS = [
     "matches('\u03b1\u03b2', '^\\p{IsGreek}+$')",
     "xs:integer('12') idiv 5",
     "string-length(codepoints-to-string((97, 8364, 128512)))",
+    # the three `with localcontext()` sites (fn:round, round-half-to-even), value and exception paths
+    "round(xs:decimal('2.5'))", "round(1.0e308)", "round(xs:decimal('12345.678'), 2)",
+    "round-half-to-even(xs:decimal('2.345'), 5000)", "round-half-to-even(1.0e-300, 310)", "round(xs:float('2.5'))",
+    "round(xs:decimal('123456789012345678901234567890.5'))",
 ]
 
 # number of strcoll/strxfrm calls of the flat templates (operand `$s` = ('b','a','b'), token 'zz')
@@ -873,6 +878,60 @@ def compare_direct_api(run: Run):
                                       site='collations.py CollationManager.__exit__'))
 
 
+def compare_decimal_scope(run: Run):
+    """the three `with localcontext()` sites under a non-default thread context: after every call, and
+    between the results of a suspended iter_select, the thread's decimal context is the very same object
+    with the same settings (value, exception and generator paths; sticky flags excluded)"""
+    from elementpath import select, Selector
+    from elementpath.xpath1 import XPath1Parser
+    from elementpath.xpath31 import XPath31Parser
+    st = run.stats
+    exprs = ["round(xs:decimal('2.5'))", "round(1.0e308)", "round(xs:decimal('12345.678'), 2)", "round(2.5)",
+             "round-half-to-even(xs:decimal('2.345'), 5000)", "round-half-to-even(1.0e-300, 310)",
+             "round(xs:decimal('1e1990'), -1999)", "round('x')", "round-half-to-even(xs:decimal('1'), 'a')",
+             "round(xs:decimal('0.1') div 3)"]
+    old = decimal.getcontext()
+    mine = decimal.Context(prec=11, rounding=decimal.ROUND_FLOOR, Emin=-99, Emax=99,
+                           traps=[decimal.DivisionByZero])
+    mine.flags[decimal.Inexact] = True
+    decimal.setcontext(mine)
+
+    def snap():
+        return decimal.getcontext() is mine, globals_digest()[1]
+    ref = snap()
+    try:
+        for e in exprs:
+            for parser in (XPath1Parser, XPath31Parser):
+                if parser is XPath1Parser and ('xs:' in e or 'half' in e):
+                    continue
+                case = {'expr': e, 'parser': parser.__name__, 'thread_context': 'prec=11 ROUND_FLOOR Inexact flag'}
+                try:
+                    select(root(), e, parser=parser)
+                    out = 'ok'
+                except BaseException as ex:
+                    out = canon_exc(ex)
+                st.case(case, nontrivial=True)
+                st.count('decimal-scope:' + out[:12])
+                if snap() != ref:
+                    run.disagree(Disagreement(case, f'context after: {snap()}', f'{ref}', spec=f'{ref}',
+                                              what='decimal-context-after-round', site='evaluate__round / round_half_to_even'))
+                    decimal.setcontext(mine)
+        # generator path: results pulled one by one, context observed while the iterator is suspended
+        it = Selector("for $x in (xs:decimal('1.5'), xs:decimal('2.5'), 3.5e0) return (round($x), round-half-to-even($x, 0))",
+                      parser=XPath31Parser).iter_select(root())
+        k = 0
+        for _ in it:
+            k += 1
+            if snap() != ref:
+                run.disagree(Disagreement({'expr': 'iter_select over round(..) results', 'step': k},
+                                          f'context while suspended: {snap()}', f'{ref}', spec=f'{ref}',
+                                          what='decimal-context-while-suspended', site='evaluate__round'))
+                break
+        st.count('decimal-scope:iter-steps', k)
+    finally:
+        decimal.setcontext(old)
+
+
 def correspond_histories(run: Run):
     rng = run.rng
     n = run.scale(450, 6000)
@@ -880,6 +939,7 @@ def correspond_histories(run: Run):
     for i in range(0, len(cases), 400):
         compare_histories(run, cases[i:i + 400])
     compare_direct_api(run)
+    compare_decimal_scope(run)
 
 
 # ---------------------------------------------------------------------------------- threads
@@ -1773,11 +1833,27 @@ def scan_sources(pkg_root: Path) -> dict:
                         facts['lock_with'].add((mod, where))
             ident = n.id if isinstance(n, ast.Name) else n.attr if isinstance(n, ast.Attribute) else None
             if ident in DEC_NAMES:
-                facts['decimal_ctx' if ident in DEC_GLOBAL else 'decimal_private_ctx'].add((mod, where))
+                if ident not in DEC_GLOBAL:
+                    facts['decimal_private_ctx'].add((mod, where))
+                else:
+                    # `with [decimal.]localcontext() as ctx: <leaf body>` swaps the thread's context for the
+                    # body and restores it on every exit path: "scoped" when the mention is the callee of a
+                    # With item and the body neither suspends (yield / await) nor calls back into evaluation
+                    kind = 'unscoped'
+                    call = parents.get(n)
+                    w = parents.get(parents.get(call)) if isinstance(call, ast.Call) and call.func is n else None
+                    if ident == 'localcontext' and isinstance(w, ast.With) and \
+                            any(it.context_expr is call for it in w.items):
+                        body_nodes = [x for st in w.body for x in ast.walk(st)]
+                        suspends = any(isinstance(x, (ast.Yield, ast.YieldFrom, ast.Await)) for x in body_nodes)
+                        reenters = any(isinstance(x, ast.Call) and isinstance(x.func, ast.Attribute) and
+                                       x.func.attr in ('evaluate', 'select', 'get_argument', 'iter_select',
+                                                       'get_results', 'atomization', 'select_results')
+                                       for x in body_nodes)
+                        kind = 'scoped' if not (suspends or reenters) else 'scoped-but-suspends-or-reenters'
+                    facts['decimal_ctx'].add((mod, where, ident, kind))
             if isinstance(n, ast.ImportFrom) and n.module == 'decimal':
-                for al in n.names:
-                    if al.name in DEC_GLOBAL:
-                        facts['decimal_ctx'].add((mod, '<import>'))
+                pass
             if isinstance(n, ast.Attribute) and n.attr == 'environ':
                 par = parents.get(n)
                 write = False
@@ -2092,8 +2168,11 @@ def translate(run: Run) -> dict:
         f'def lockBareSites : List (String × String) := {_lean_pairs(f["lock_bare"])}',
         '/-- `with _locale_collate_lock:` -/',
         f'def lockWithSites : List (String × String) := {_lean_pairs(f["lock_with"])}',
-        '/-- any mention of getcontext / setcontext / localcontext / DefaultContext / BasicContext / ExtendedContext -/',
-        f'def decimalGlobalContextSites : List (String × String) := {_lean_pairs(f["decimal_ctx"])}',
+        '/-- every mention (other than in an import) of getcontext / setcontext / localcontext / DefaultContext /',
+        'BasicContext / ExtendedContext: (module, function, name, verdict) with verdict `scoped` = callee of a `with`',
+        'item whose body neither yields / awaits nor calls back into evaluation, else `unscoped` / `scoped-but-..` -/',
+        'def decimalThreadContextSites : List (String × String × String × String) := [' + ', '.join(
+            f'({_lean_str(a)}, {_lean_str(b)}, {_lean_str(c)}, {_lean_str(d)})' for a, b, c, d in f["decimal_ctx"]) + ']',
         '/-- constructions of a private `decimal.Context(..)` object (does not touch the thread\'s context) -/',
         f'def decimalPrivateContextSites : List (String × String) := {_lean_pairs(f["decimal_private_ctx"])}',
         '/-- stores into / deletions from / mutating method calls on `os.environ`, `putenv`, `unsetenv` -/',
